@@ -619,13 +619,23 @@ namespace sim
 			// +----+------+------+----------+----------+----------+
 
 			char const* buf = m_udp_buffer.data();
-			if (buf[2] != 0) std::printf("fragment != 0, not supported\n");
+			// the header is as untrusted as the payload: it must fit the datagram
+			int const atyp = bytes_transferred >= 4 ? buf[3] : -1;
+			if (atyp >= 0 && buf[2] != 0) std::printf("fragment != 0, not supported\n");
 
-			int const atyp = buf[3];
-			if (atyp == 3)
+			if (atyp == 3 && (bytes_transferred < 5
+				|| bytes_transferred < std::size_t(7 + std::uint8_t(buf[4]))))
+			{
+				std::printf("truncated UDP ASSOCIATE header (hostname)\n");
+			}
+			else if (atyp == 1 && bytes_transferred < 10)
+			{
+				std::printf("truncated UDP ASSOCIATE header (IPv4)\n");
+			}
+			else if (atyp == 3)
 			{
 				// hostname
-				int const len = buf[4];
+				int const len = std::uint8_t(buf[4]);
 
 				buf += 5;
 				bytes_transferred -= 5;
